@@ -107,6 +107,17 @@ class Sym:
                 else:
                     self.lets[x["pat"]["lid"]] = x["init"]
         for x in walk(body):
+            # for (i, x) in coll.iter().enumerate(): i ranges over 0..coll.len()
+            if x.get("k") == "For" and x["pat"].get("k") == "PTuple" and x["pat"]["ps"] and x["pat"]["ps"][0].get("k") == "PBind":
+                it = strip(x["iter"])
+                if it.get("k") == "MCall" and it.get("name") == "enumerate":
+                    src = strip(it["recv"])
+                    while src.get("k") == "MCall" and src.get("name") in ("iter", "iter_mut", "into_iter", "by_ref"):
+                        src = strip(src["recv"])
+                    q = x["pat"]["ps"][0]
+                    atom = "%s#%d" % (q["name"], q["lid"])
+                    self.loopvars[q["lid"]] = atom
+                    self.ranges[atom] = ({}, patom("len(%s)" % self.canon(src)))
             if x.get("k") == "For" and x["pat"].get("k") == "PBind":
                 it = strip(x["iter"])
                 if it.get("k") == "Struct" and it.get("path", "").endswith("ops::Range"):
